@@ -321,13 +321,15 @@ def path_pool(d):
     ]
 
 
-def reachable_functions(session):
+def reachable_functions(session, extra=None):
     """E5: breadth-first search over the real object graph"""
     V = core.ckl.values
     F = core.ckl.functions
     seen = set()
     funcs = {}
     queue = [session.interp.environment, session.interp.base_environment]
+    if extra is not None:
+        queue.append(extra)
     steps = 0
     while queue:
         x = queue.pop()
@@ -425,14 +427,34 @@ def _call_node(k):
 SWEPT = {}
 
 
-def check_program(agg, session, src, origin, cfg, pool, maxar, canary):
+HOST_ENVS = ("root", "none", "nested")
+
+
+def host_env(how):
+    """an environment supplied by the embedding host to interpret()"""
+    F = core.ckl.functions
+    if how == "root":
+        return F.Environment()
+    if how == "none":
+        return F.get_none_environment()
+    return F.Environment().newEnv()
+
+
+def check_program(agg, session, src, origin, cfg, pool, maxar, canary,
+                  host=None):
     """run one attack program, then all oracles on the reached state"""
     del EVENTS[:]
     REC["on"] = True
     core.set_fuel(100000, 100000)
     core.arm(20)
+    henv = host_env(host) if host else None
     try:
-        o = core.outcome_raw(lambda: session.interp.interpret(src, "attack"))
+        if henv is not None:
+            o = core.outcome_raw(lambda: session.interp.interpret(
+                src, "attack", henv))
+        else:
+            o = core.outcome_raw(
+                lambda: session.interp.interpret(src, "attack"))
     finally:
         core.disarm()
         core.set_fuel(10 ** 12, 10 ** 12)
@@ -442,16 +464,19 @@ def check_program(agg, session, src, origin, cfg, pool, maxar, canary):
     if EVENTS:
         agg.violation({"what": "os-access-during-program",
                        "event": EVENTS[0][0], "origin": origin.split(":")[0]},
-                      {"kind": "program", "src": src, "cfg": cfg},
+                      {"kind": "program", "src": src, "cfg": cfg,
+                       "host": host},
                       "no file/process access", list(EVENTS[:3]),
                       size=len(src))
     env = session.interp.environment
     for name in OS_NAMES:
-        if env.isDefined(name):
+        if env.isDefined(name) or (henv is not None and
+                                   henv.isDefined(name)):
             agg.violation({"what": "os-name-defined", "name": name,
                            "origin": origin.split(":")[0]},
                           {"kind": "program", "src": src, "cfg": cfg,
-                           "name": name}, "undefined", "defined",
+                           "name": name, "host": host}, "undefined",
+                          "defined",
                           size=len(src))
     flag = session.interp.base_environment.get(FLAG)
     if flag is not core.ckl.values.TRUE:
@@ -459,7 +484,7 @@ def check_program(agg, session, src, origin, cfg, pool, maxar, canary):
                        "origin": origin.split(":")[0]},
                       {"kind": "program", "src": src, "cfg": cfg},
                       "TRUE", repr(flag), size=len(src))
-    funcs, steps = reachable_functions(session)
+    funcs, steps = reachable_functions(session, henv)
     agg.count("reach_nodes", steps)
     swept = SWEPT.setdefault(cfg, set())
     for key, fn in funcs.items():
@@ -468,7 +493,8 @@ def check_program(agg, session, src, origin, cfg, pool, maxar, canary):
         if k2 in swept:
             continue
         swept.add(k2)
-        invoke_all(agg, session, fn, k2[1], pool, maxar, src)
+        invoke_all(agg, session, fn, k2[1], pool, maxar,
+                   src if host is None else src + "  [host env: %s]" % host)
         agg.count("functions_swept")
     if canary_state(canary) != CANARY0[0]:
         agg.violation({"what": "canary-changed",
@@ -512,6 +538,15 @@ def explore(chunk):
             check_program(agg, session, src, origin, cfg, pool,
                           chunk["maxar"], d)
             agg.count("cases")
+            if origin.startswith("flag"):
+                # the same attack when the embedding host passes its own
+                # environment to interpret()
+                for how in (HOST_ENVS if origin != "flag-compound"
+                            or chunk.get("allhosts") else HOST_ENVS[:1]):
+                    session = core.Session(secure=True, legacy=legacy)
+                    check_program(agg, session, src, origin + "@" + how,
+                                  cfg, pool, chunk["maxar"], d, host=how)
+                    agg.count("cases")
             if agg.n["cases"] % 150 == 1:
                 agg.sample({"program": src, "config": cfg,
                             "reachable_functions": len(
@@ -533,7 +568,11 @@ def replay(case, verbose=False):
             continue
         s = core.Session(secure=True, legacy=legacy)
         src = case["src"] if case["kind"] == "program" else case["origin"]
-        check_program(a, s, src, "replay", cfg, pool, 2, d)
+        host = case.get("host")
+        if host is None and "  [host env: " in src:
+            src, _, h = src.partition("  [host env: ")
+            host = h.rstrip("]")
+        check_program(a, s, src, "replay", cfg, pool, 2, d, host=host)
     if verbose:
         for k, (sz, v) in a.viol.items():
             print(v)
@@ -608,7 +647,8 @@ def main(tier, seed):
     jobs = [{"baseline": True, "programs": [], "maxar": maxar,
              "pool": npool}]
     for c in core.chunked(progs, core.NPROC * 2):
-        jobs.append({"programs": c, "maxar": maxar, "pool": npool})
+        jobs.append({"programs": c, "maxar": maxar, "pool": npool,
+                     "allhosts": tier == "thorough"})
     agg = core.pmap(explore, jobs)
     agg.n["native_names"] = len(names)
     core.finish(
